@@ -19,7 +19,7 @@ RULE = ("case = generated enum with renames (empty, quotes, backslashes, braces,
         "non-alphanumeric character; distinct by (repr, discriminants, names, module set)")
 
 PROFILE = S.profile(renames=0.6, dups=0.1, sizes=[("small", 68), ("medium", 10), ("large", 17), ("full8", 5)],
-                    anchors=["min", "max", "zero", "neg", "neg", "rand"])
+                    anchors=["min", "max", "zero", "neg", "neg", "rand", "narrow_max", "narrow_min"])
 
 VARIANTS = [
     ("match", {"as_str": [["mode", "match"]], "Debug": [], "Display": [], "IntoStr": []}),
